@@ -165,7 +165,7 @@ theorem tight_brackets (mid : Bytes) : Tight (91 :: (mid ++ [93])) := by
   · intro c hc
     rw [getLast?_cons_snoc] at hc; cases hc; decide
 
-theorem lineStep_sect (w : World) (sep : UInt8) (name : Bytes) (l : Lay) (hl : LayOk l)
+theorem lineStep_sect (w : World) (sep : UInt8) (hs0 : sep ≠ 0) (name : Bytes) (l : Lay) (hl : LayOk l)
     (hok : ItemOk sep (.sect name)) (sect : Option Bytes) (t : Table) :
     lineStep w sep (renderItem sep (.sect name) l) sect t =
       .ok (if name = [] then (none, t) else (some name, t ++ [(name ++ [46], name)])) := by
@@ -198,6 +198,7 @@ theorem lineStep_sect (w : World) (sep : UInt8) (name : Bytes) (l : Lay) (hl : L
     have hmw : Encode.makeword (sep :: name) sep = ([], name) := by
       have := makeword_split [] name sep (by intro c hc; simp at hc)
       simpa using this
+    simp only [hs0, if_false]
     rw [hmw]
     have ht1 : Str.trim name = name := by
       have := trim_pad [] name [] (by simp) (by simp) htight
@@ -222,7 +223,7 @@ theorem tight_append {x y : Bytes} (hx : Tight x) (hy : Tight y) (hxn : x ≠ []
     exact hy.2 c hc
 
 /-- an entry line whose value text `value` expands to `v'` -/
-theorem lineStep_entry_gen (w : World) (sep : UInt8) (hsep : Str.isWs sep = false) (name value v' : Bytes) (l : Lay)
+theorem lineStep_entry_gen (w : World) (sep : UInt8) (hsep : Str.isWs sep = false) (hs0 : sep ≠ 0) (name value v' : Bytes) (l : Lay)
     (hl : LayOk l)
     (hok : name ≠ [] ∧ Tight name ∧ NoByte 10 name ∧ NoByte sep name ∧ name.head? ≠ some 35 ∧ name.head? ≠ some 91 ∧
       Tight value ∧ NoByte 10 value)
@@ -294,12 +295,12 @@ theorem lineStep_entry_gen (w : World) (sep : UInt8) (hsep : Str.isWs sep = fals
       rw [this]; simp
     · simp [hv]
 
-theorem lineStep_entry (w : World) (sep : UInt8) (hsep : Str.isWs sep = false) (name value : Bytes) (l : Lay)
+theorem lineStep_entry (w : World) (sep : UInt8) (hsep : Str.isWs sep = false) (hs0 : sep ≠ 0) (name value : Bytes) (l : Lay)
     (hl : LayOk l) (hok : ItemOk sep (.entry name value)) (sect : Option Bytes) (t : Table) :
     lineStep w sep (renderItem sep (.entry name value) l) sect t =
       .ok (sect, t ++ [((match sect with | some p => p ++ [46] ++ name | none => name), value)]) := by
   obtain ⟨hne, htn, hn10, hnsep, h35, h91, htv, hv10, hv36⟩ := hok
-  exact lineStep_entry_gen w sep hsep name value value l hl ⟨hne, htn, hn10, hnsep, h35, h91, htv, hv10⟩ sect t
+  exact lineStep_entry_gen w sep hsep hs0 name value value l hl ⟨hne, htn, hn10, hnsep, h35, h91, htv, hv10⟩ sect t
     (parsestr_plain w t value hv36)
 
 def sectAfter (s : Option Bytes) : Item → Option Bytes
@@ -319,20 +320,20 @@ theorem expected_cons (s : Option Bytes) (i : Item) (rest : List Item) :
   | sect name => by_cases h : name = [] <;> simp [expected, entriesOf, sectAfter, h]
   | entry name value => rfl
 
-theorem lineStep_item (w : World) (sep : UInt8) (hsep : Str.isWs sep = false) (i : Item) (l : Lay)
+theorem lineStep_item (w : World) (sep : UInt8) (hsep : Str.isWs sep = false) (hs0 : sep ≠ 0) (i : Item) (l : Lay)
     (hok : ItemOk sep i) (hl : LayOk l) (sect : Option Bytes) (t : Table) :
     lineStep w sep (renderItem sep i l) sect t = .ok (sectAfter sect i, t ++ entriesOf sect i) := by
   cases i with
   | blank => simp [lineStep_blank w sep l hl, sectAfter, entriesOf]
   | comment text => simp [lineStep_comment w sep text l hl, sectAfter, entriesOf]
   | sect name =>
-    rw [lineStep_sect w sep name l hl hok]
+    rw [lineStep_sect w sep hs0 name l hl hok]
     by_cases h : name = [] <;> simp [sectAfter, entriesOf, h]
   | entry name value =>
-    rw [lineStep_entry w sep hsep name value l hl hok]
+    rw [lineStep_entry w sep hsep hs0 name value l hl hok]
     simp [sectAfter, entriesOf]
 
-theorem renderItem_noNl (sep : UInt8) (hsep : Str.isWs sep = false) (i : Item) (l : Lay)
+theorem renderItem_noNl (sep : UInt8) (hsep : Str.isWs sep = false) (hs0 : sep ≠ 0) (i : Item) (l : Lay)
     (hok : ItemOk sep i) (hl : LayOk l) : NoByte 10 (renderItem sep i l) := by
   obtain ⟨ha, hb, hc, hd⟩ := hl
   have n1 : ∀ (b : UInt8), b ≠ 10 → NoByte 10 [b] := by intro b hb c hc; simp at hc; subst hc; exact hb
@@ -350,7 +351,7 @@ theorem renderItem_noNl (sep : UInt8) (hsep : Str.isWs sep = false) (i : Item) (
       (layWs_noByte10 ha) hok.2.2.1) (layWs_noByte10 hb)) (n1 sep hs10)) (layWs_noByte10 hc))
       hok.2.2.2.2.2.2.2.1) (layWs_noByte10 hd)
 
-theorem parseLoop_render (w : World) (sep : UInt8) (hsep : Str.isWs sep = false) (items : List (Item × Lay)) :
+theorem parseLoop_render (w : World) (sep : UInt8) (hsep : Str.isWs sep = false) (hs0 : sep ≠ 0) (items : List (Item × Lay)) :
     ∀ (nl : Bool) (fuel : Nat) (sect : Option Bytes) (t : Table),
     (∀ x ∈ items, ItemOk sep x.1 ∧ LayOk x.2) → (renderDoc sep items nl).length < fuel →
     parseLoop w sep fuel (renderDoc sep items nl) sect t = .ok (t ++ expected sect (items.map (·.1))) := by
@@ -365,7 +366,7 @@ theorem parseLoop_render (w : World) (sep : UInt8) (hsep : Str.isWs sep = false)
     obtain ⟨i, l⟩ := x
     obtain ⟨hi, hl⟩ := hok (i, l) (by simp)
     have hokr : ∀ y ∈ rest, ItemOk sep y.1 ∧ LayOk y.2 := fun y hy => hok y (by simp [hy])
-    have hno := renderItem_noNl sep hsep i l hi hl
+    have hno := renderItem_noNl sep hsep hs0 i l hi hl
     cases fuel with
     | zero => simp at hf
     | succ f =>
@@ -377,7 +378,7 @@ theorem parseLoop_render (w : World) (sep : UInt8) (hsep : Str.isWs sep = false)
       simp only [renderDoc, List.map_nil, expected, List.append_nil]
       unfold parseLoop
       by_cases hR : renderItem sep i l = []
-      · have := lineStep_item w sep hsep i l hi hl sect t
+      · have := lineStep_item w sep hsep hs0 i l hi hl sect t
         rw [hR] at this
         simp only [hR, if_true]
         -- an empty line adds nothing
@@ -386,7 +387,7 @@ theorem parseLoop_render (w : World) (sep : UInt8) (hsep : Str.isWs sep = false)
         rw [h2] at this
         simp only [Except.ok.injEq, Prod.mk.injEq] at this
         rw [← this.2]
-      · simp only [hR, if_false, splitLine_last _ hno, lineStep_item w sep hsep i l hi hl sect t]
+      · simp only [hR, if_false, splitLine_last _ hno, lineStep_item w sep hsep hs0 i l hi hl sect t]
         cases f with
         | zero =>
           have h1 : (renderItem sep i l).length < 1 := by simpa [renderDoc] using hf
@@ -403,16 +404,16 @@ theorem parseLoop_render (w : World) (sep : UInt8) (hsep : Str.isWs sep = false)
       rw [hshape] at hf ⊢
       unfold parseLoop
       have hne : renderItem sep i l ++ 10 :: renderDoc sep rest nl ≠ [] := by simp
-      simp only [hne, if_false, splitLine_nl _ _ hno, lineStep_item w sep hsep i l hi hl sect t]
+      simp only [hne, if_false, splitLine_nl _ _ hno, lineStep_item w sep hsep hs0 i l hi hl sect t]
       rw [ih nl f _ _ hokr (by simp only [List.length_append, List.length_cons] at hf; omega)]
       simp
 
 /-- the whole function on a rendered document -/
-theorem parseStr_render (w : World) (sep : UInt8) (hsep : Str.isWs sep = false) (items : List (Item × Lay))
+theorem parseStr_render (w : World) (sep : UInt8) (hsep : Str.isWs sep = false) (hs0 : sep ≠ 0) (items : List (Item × Lay))
     (nl : Bool) (hok : ∀ x ∈ items, ItemOk sep x.1 ∧ LayOk x.2) :
     parseStr w sep (renderDoc sep items nl) = .ok (expected none (items.map (·.1))) := by
   unfold parseStr
-  have := parseLoop_render w sep hsep items nl ((renderDoc sep items nl).length + 1) none [] hok (by omega)
+  have := parseLoop_render w sep hsep hs0 items nl ((renderDoc sep items nl).length + 1) none [] hok (by omega)
   simpa using this
 
 end Qlibc.Conf.Ini
